@@ -55,7 +55,10 @@ pub fn dash_path(path: &Path, dash_array: &[f32], mut dash_offset: f32) -> Path 
     };
 
     // adjust our position in the dash array by the dash offset
-    while dash_offset > state.remaining_length {
+    // An offset that lands exactly on the end of a dash starts the next dash: stopping on a dash with
+    // nothing left of it would make the first piece of every subpath look like a later one, so that
+    // on a closed subpath it is not joined with the last piece (or closed, if it covers the whole subpath).
+    while dash_offset > 0. && dash_offset >= state.remaining_length {
         dash_offset -= state.remaining_length;
         state.index += 1;
         state.remaining_length = dash_array[state.index % dash_array.len()];
